@@ -633,6 +633,16 @@ def _():
     serializer(lazy=_op1_lazy_ser_getter, source=Op1)
 
 
+def _op1_from_float(x: float) -> Op1:
+    return Op1(("classbody", x))
+
+
+@cfg("deserializer.Op1.class_body", "conv_d")
+def _():
+    # the decorator form inside a class body: registered by __set_name__ when the class is created
+    type("Op1Factory", (), {"from_float": deserializer(staticmethod(_op1_from_float))})
+
+
 @cfg("reset_deserializers.Op1", "conv_d")
 def _():
     reset_deserializers(Op1)
@@ -1148,6 +1158,7 @@ _des("PosInt.3", "PosInt", 3, "schemareg", "validator")
 _des("Op1.int", "Op1", 5, "conv_d")
 _des("Op1.str", "Op1", "five", "conv_d")
 _des("Op1.list", "Op1", [1, 2], "conv_d")
+_des("Op1.float", "Op1", 1.5, "conv_d")
 _des("H", "H", {"o": 1, "os": ["a", 2]}, "conv_d")
 _des("ListOp1", "ListOp1", [1, "b"], "conv_d")
 _des("HR", "HR", {"o": [1, 2], "nxt": {"o": 3}}, "conv_d")
